@@ -11,6 +11,7 @@
 import Props.Tables
 import Proofs.ApiGlue
 import Proofs.Printer
+import Props.Bytes
 namespace Jmes.Props
 open Jmes Jmes.Parser
 
@@ -119,5 +120,41 @@ example : Parser.wf (.flat (.bstar (a (N := N)) (.dot (.sub b' c))) (.br (.idx0 
   have h0 : atoi [0x30] = some 0 := by decide
   simp [Parser.wf, Parser.wfRhs, dotOK, brOK, first, PE.isListOrHash, PE.level, PE.rp, a, b', c, h0]
 end Examples
+
+/-! ### (4) from bytes: white space and spellings
+
+`Lexer.Rendered keys s`: the byte string `s` writes the tokens `keys`, each in
+one of its spellings (`Lexer.Spell`), with arbitrary runs of white space before,
+between and after them; tokens touch only where they cannot fuse. -/
+
+open Jmes.Spec Jmes.Lexer in
+/-- **The written expression compiles to its AST**: any rendering of the printed
+    tokens of `e` — with any white space — compiles to `node e`. -/
+theorem C03_bytes_round_trip (e : PE N) (hw : Parser.wf e) (keys : List (TokType × Bytes)) (s : Bytes)
+    (hk : KeysOf (ppE e) keys) (hr : Rendered keys s) : Api.compile Model.cfg s = .ok (node e) :=
+  compile_rendered hk hr (C03_printer_round_trip e hw)
+
+open Jmes.Lexer in
+/-- **White space between tokens never changes the meaning**: two byte strings
+    that render the same tokens compile to the same AST (then
+    `C03_equal_parse_equal_result`: same result on every document). -/
+theorem C03_white_space_insignificant (keys : List (TokType × Bytes)) (s1 s2 : Bytes) (ast : Node N)
+    (h1 : Rendered keys s1) (h2 : Rendered keys s2) (hp : Api.compile Model.cfg s1 = .ok ast) :
+    Api.compile Model.cfg s2 = .ok ast :=
+  compile_same_tokens h1 h2 hp
+
+open Jmes.Lexer in
+/-- non-vacuity: `a . b` and `a.b` both render the tokens a, dot, b -/
+example : Rendered [(.uident, [0x61]), (.dot, [0x2E]), (.uident, [0x62])] [0x61, 0x20, 0x2E, 0x20, 0x62] ∧
+    Rendered [(.uident, [0x61]), (.dot, [0x2E]), (.uident, [0x62])] [0x61, 0x2E, 0x62] := by
+  constructor
+  · exact Rendered.cons [] .uident [0x61] [0x61] _ _ (by simp) (.ident 0x61 [] (by decide) (by simp))
+      (Rendered.cons [0x20] .dot [0x2E] [0x2E] _ _ (by decide) (.basic 0x2E .dot (by decide))
+        (Rendered.cons [0x20] .uident [0x62] [0x62] _ _ (by decide) (.ident 0x62 [] (by decide) (by simp))
+          (Rendered.nil [] (by simp)) trivial) trivial) (by simp [Follows, isIdTrail, isIdStart, isDigitB])
+  · exact Rendered.cons [] .uident [0x61] [0x61] _ _ (by simp) (.ident 0x61 [] (by decide) (by simp))
+      (Rendered.cons [] .dot [0x2E] [0x2E] _ _ (by simp) (.basic 0x2E .dot (by decide))
+        (Rendered.cons [] .uident [0x62] [0x62] _ _ (by simp) (.ident 0x62 [] (by decide) (by simp))
+          (Rendered.nil [] (by simp)) trivial) trivial) (by simp [Follows, isIdTrail, isIdStart, isDigitB])
 
 end Jmes.Props
